@@ -11,7 +11,8 @@ def arithK (tr : K → K) : Arith K :=
     neg := fun x => -x, add := fun a b => a + b, sub := fun a b => a - b, mul := fun a b => a * b,
     div := fun a b => a / b,
     lt := fun a b => decide (a < b), le := fun a b => decide (a ≤ b), beq := fun a b => decide (a = b),
-    equal := GenK.Equal, trunc := tr }
+    equal := GenK.Equal, trunc := tr,
+    sqrt2 := Env.sqrt 2, c1001 := 1001 / 1000, fmax := max }
 
 def opsK (tr : K → K) (cd : K → List K → K → List K × Bool) : Ops K :=
   { arithK tr with
@@ -22,6 +23,8 @@ def opsK (tr : K → K) (cd : K → List K → K → List K × Bool) : Ops K :=
     reflectXAbout := Matrix.ReflectXAbout, reflectYAbout := Matrix.ReflectYAbout,
     scaleAbout := Matrix.ScaleAbout, shearAbout := Matrix.ShearAbout,
     rectTransform := Rect.Transform, rectAdd := Rect.Add,
+    isSquareCap := fun k => k == 2,
+    joinLimit := fun k => if k == 0 || k == 3 || k == 4 then some 4 else none,
     checkDash := cd }
 
 end C15
